@@ -301,7 +301,7 @@ class Output(object):
                 else:
                     # Don't use .4g because this will give unnecessary descimals for
                     # location ids
-                    s += "%-*g| " % (desc_lengths[w], descs[w][i])
+                    s += "%-*s| " % (desc_lengths[w], "%.12g" % descs[w][i])
             for f in range(y.shape[1]):
                 s += "%-*.4g| " % (lengths[f], y[i, f])
             s += "\n"
